@@ -2,7 +2,7 @@
    Statements only; every proof is `exact <lemma>`. *)
 From Coq Require Import List NArith Bool.
 From RPCX Require Import Wire.Bytes Wire.Header Wire.Codec Wire.CodecSpec Wire.CodecProofs Wire.CodecRoundTrip
-  Wire.StreamProofs Wire.EncodeProofs.
+  Wire.StreamProofs Wire.EncodeProofs Wire.DecodeGen Wire.DecodeGenProofs.
 Import ListNotations.
 Open Scope N_scope.
 
@@ -76,6 +76,16 @@ Proof. vm_compute. reflexivity. Qed.
 Example C02_overrun_is_an_error_reused : fst (decode no_env 0 old_obj bad_frame) = Err InvalidFrame.
 Proof. vm_compute. reflexivity. Qed.
 
+(* the tie to the source: the two bounds-checked readers the decoder model is built from - the `section` closure of
+   Message.Decode and decodeMetadata - are, statement by statement, what tools/godecode2v regenerates from
+   protocol/message.go on every run (Wire/DecodeGen.v); a change of a guard, an offset, a slice bound or the loop in
+   the Go source changes the generated definitions and these two equalities stop checking *)
+Theorem C02_section_is_the_source_s : forall data n, gen_section data n = section data n.
+Proof. exact gen_section_is_section. Qed.
+Theorem C02_decode_metadata_is_the_source_s : forall fuel l data n acc,
+  gen_dec_meta fuel l data n acc = dec_meta fuel l data n acc.
+Proof. exact gen_dec_meta_is_dec_meta. Qed.
+
 Print Assumptions C02_success_consumes_one_frame.
 Print Assumptions C02_fields_are_the_delimited_ranges.
 Print Assumptions C02_decoder_refines_spec.
@@ -83,3 +93,5 @@ Print Assumptions C02_independent_of_object_history.
 Print Assumptions C02_never_panics.
 Print Assumptions C02_too_long_rejected_before_body.
 Print Assumptions C02_concatenated_frames_resynchronise.
+Print Assumptions C02_section_is_the_source_s.
+Print Assumptions C02_decode_metadata_is_the_source_s.
